@@ -38,6 +38,8 @@ package grammar
 
 //@ func parser.parseExpr(p, expr) (val, ok)
 //@   requires p != nil && p.Stats != nil && p.Stats.ExprCnt <= p.maxExprCnt && p.errs != nil
+//@   ensures[C10] yields: ok ==> yields(expr, val)
+//@   ensures[C10] fail_nil: !ok ==> val == nil
 //@   assume p.Stats.ExprCnt < 18446744073709551615
 //@   ensures[C11] budget: p.Stats == old(p.Stats) && p.maxExprCnt == old(p.maxExprCnt) && p.Stats.ExprCnt >= old(p.Stats.ExprCnt) && p.Stats.ExprCnt <= p.maxExprCnt && p.errs == old(p.errs)
 //@   ensures[C11] step: p.Stats.ExprCnt >= old(p.Stats.ExprCnt) + 1
@@ -46,31 +48,40 @@ package grammar
 
 //@ func parser.parseRule(p, rule) (val, ok)
 //@   requires p != nil && p.Stats != nil && p.Stats.ExprCnt <= p.maxExprCnt && p.errs != nil
+//@   ensures[C10] yields: ok ==> yields(rule.expr, val)
+//@   ensures[C10] fail_nil: !ok ==> val == nil
 //@   ensures[C11] budget: p.Stats == old(p.Stats) && p.maxExprCnt == old(p.maxExprCnt) && p.Stats.ExprCnt >= old(p.Stats.ExprCnt) && p.Stats.ExprCnt <= p.maxExprCnt && p.errs == old(p.errs)
 //@   may_panic
 
 //@ func parser.parseActionExpr(p, act) (val, ok)
 //@   requires p != nil && p.Stats != nil && p.Stats.ExprCnt <= p.maxExprCnt && p.errs != nil
+//@   ensures[C10] fail_nil: !ok ==> val == nil
 //@   ensures[C11] budget: p.Stats == old(p.Stats) && p.maxExprCnt == old(p.maxExprCnt) && p.Stats.ExprCnt >= old(p.Stats.ExprCnt) && p.Stats.ExprCnt <= p.maxExprCnt && p.errs == old(p.errs)
 //@   may_panic
 
 //@ func parser.parseAndCodeExpr(p, and) (val, ok)
 //@   requires p != nil && p.Stats != nil && p.Stats.ExprCnt <= p.maxExprCnt && p.errs != nil
+//@   ensures[C10] shape: val == nil
 //@   ensures[C11] budget: p.Stats == old(p.Stats) && p.maxExprCnt == old(p.maxExprCnt) && p.Stats.ExprCnt >= old(p.Stats.ExprCnt) && p.Stats.ExprCnt <= p.maxExprCnt && p.errs == old(p.errs)
 //@   may_panic
 
 //@ func parser.parseAndExpr(p, and) (val, ok)
 //@   requires p != nil && p.Stats != nil && p.Stats.ExprCnt <= p.maxExprCnt && p.errs != nil
+//@   ensures[C10] shape: val == nil
 //@   ensures[C11] budget: p.Stats == old(p.Stats) && p.maxExprCnt == old(p.maxExprCnt) && p.Stats.ExprCnt >= old(p.Stats.ExprCnt) && p.Stats.ExprCnt <= p.maxExprCnt && p.errs == old(p.errs)
 //@   may_panic
 
 //@ func parser.parseAnyMatcher(p, any) (val, ok)
 //@   requires p != nil && p.Stats != nil && p.Stats.ExprCnt <= p.maxExprCnt && p.errs != nil
+//@   ensures[C10] fail_nil: !ok ==> val == nil
+//@   ensures[C10] shape: ok ==> is[[]byte](val)
 //@   ensures[C11] budget: p.Stats == old(p.Stats) && p.maxExprCnt == old(p.maxExprCnt) && p.Stats.ExprCnt >= old(p.Stats.ExprCnt) && p.Stats.ExprCnt <= p.maxExprCnt && p.errs == old(p.errs)
 //@   may_panic
 
 //@ func parser.parseCharClassMatcher(p, chr) (val, ok)
 //@   requires p != nil && p.Stats != nil && p.Stats.ExprCnt <= p.maxExprCnt && p.errs != nil
+//@   ensures[C10] fail_nil: !ok ==> val == nil
+//@   ensures[C10] shape: ok ==> is[[]byte](val)
 //@   ensures[C11] budget: p.Stats == old(p.Stats) && p.maxExprCnt == old(p.maxExprCnt) && p.Stats.ExprCnt >= old(p.Stats.ExprCnt) && p.Stats.ExprCnt <= p.maxExprCnt && p.errs == old(p.errs)
 //@   may_panic
 //@   loop 1:
@@ -82,6 +93,8 @@ package grammar
 
 //@ func parser.parseChoiceExpr(p, ch) (val, ok)
 //@   requires p != nil && p.Stats != nil && p.Stats.ExprCnt <= p.maxExprCnt && p.errs != nil
+//@   ensures[C10] yields: ok ==> yields(box[*choiceExpr](ch), val)
+//@   ensures[C10] fail_nil: !ok ==> val == nil
 //@   ensures[C11] budget: p.Stats == old(p.Stats) && p.maxExprCnt == old(p.maxExprCnt) && p.Stats.ExprCnt >= old(p.Stats.ExprCnt) && p.Stats.ExprCnt <= p.maxExprCnt && p.errs == old(p.errs)
 //@   may_panic
 //@   loop 1:
@@ -89,11 +102,15 @@ package grammar
 
 //@ func parser.parseLabeledExpr(p, lab) (val, ok)
 //@   requires p != nil && p.Stats != nil && p.Stats.ExprCnt <= p.maxExprCnt && p.errs != nil
+//@   ensures[C10] yields: ok ==> yields(box[*labeledExpr](lab), val)
+//@   ensures[C10] fail_nil: !ok ==> val == nil
 //@   ensures[C11] budget: p.Stats == old(p.Stats) && p.maxExprCnt == old(p.maxExprCnt) && p.Stats.ExprCnt >= old(p.Stats.ExprCnt) && p.Stats.ExprCnt <= p.maxExprCnt && p.errs == old(p.errs)
 //@   may_panic
 
 //@ func parser.parseLitMatcher(p, lit) (val, ok)
 //@   requires p != nil && p.Stats != nil && p.Stats.ExprCnt <= p.maxExprCnt && p.errs != nil
+//@   ensures[C10] fail_nil: !ok ==> val == nil
+//@   ensures[C10] shape: ok ==> is[[]byte](val)
 //@   ensures[C11] budget: p.Stats == old(p.Stats) && p.maxExprCnt == old(p.maxExprCnt) && p.Stats.ExprCnt >= old(p.Stats.ExprCnt) && p.Stats.ExprCnt <= p.maxExprCnt && p.errs == old(p.errs)
 //@   may_panic
 //@   loop 1:
@@ -101,40 +118,55 @@ package grammar
 
 //@ func parser.parseNotCodeExpr(p, not) (val, ok)
 //@   requires p != nil && p.Stats != nil && p.Stats.ExprCnt <= p.maxExprCnt && p.errs != nil
+//@   ensures[C10] shape: val == nil
 //@   ensures[C11] budget: p.Stats == old(p.Stats) && p.maxExprCnt == old(p.maxExprCnt) && p.Stats.ExprCnt >= old(p.Stats.ExprCnt) && p.Stats.ExprCnt <= p.maxExprCnt && p.errs == old(p.errs)
 //@   may_panic
 
 //@ func parser.parseNotExpr(p, not) (val, ok)
 //@   requires p != nil && p.Stats != nil && p.Stats.ExprCnt <= p.maxExprCnt && p.errs != nil
+//@   ensures[C10] shape: val == nil
 //@   ensures[C11] budget: p.Stats == old(p.Stats) && p.maxExprCnt == old(p.maxExprCnt) && p.Stats.ExprCnt >= old(p.Stats.ExprCnt) && p.Stats.ExprCnt <= p.maxExprCnt && p.errs == old(p.errs)
 //@   may_panic
 
 //@ func parser.parseOneOrMoreExpr(p, expr) (val, ok)
 //@   requires p != nil && p.Stats != nil && p.Stats.ExprCnt <= p.maxExprCnt && p.errs != nil
+//@   ensures[C10] yields: ok ==> yields(box[*oneOrMoreExpr](expr), val)
+//@   ensures[C10] fail_nil: !ok ==> val == nil
+//@   ensures[C10] shape: ok ==> is[[]any](val) && len(unbox[[]any](val)) >= 1
 //@   ensures[C11] budget: p.Stats == old(p.Stats) && p.maxExprCnt == old(p.maxExprCnt) && p.Stats.ExprCnt >= old(p.Stats.ExprCnt) && p.Stats.ExprCnt <= p.maxExprCnt && p.errs == old(p.errs)
 //@   may_panic
 //@   loop 1:
+//@     invariant[C10] forall j Int :: 0 <= j && j < len(vals) ==> yields(expr.expr, vals[j])
 //@     invariant p.Stats == old(p.Stats) && p.maxExprCnt == old(p.maxExprCnt) && p.Stats.ExprCnt >= old(p.Stats.ExprCnt) && p.Stats.ExprCnt <= p.maxExprCnt && p.errs == old(p.errs) && p.Stats != nil
 
 //@ func parser.parseRecoveryExpr(p, recover) (val, ok)
 //@   requires p != nil && p.Stats != nil && p.Stats.ExprCnt <= p.maxExprCnt && p.errs != nil
+//@   ensures[C10] fail_nil: !ok ==> val == nil
 //@   ensures[C11] budget: p.Stats == old(p.Stats) && p.maxExprCnt == old(p.maxExprCnt) && p.Stats.ExprCnt >= old(p.Stats.ExprCnt) && p.Stats.ExprCnt <= p.maxExprCnt && p.errs == old(p.errs)
 //@   may_panic
 
 //@ func parser.parseRuleRefExpr(p, ref) (val, ok)
 //@   requires p != nil && p.Stats != nil && p.Stats.ExprCnt <= p.maxExprCnt && p.errs != nil
+//@   ensures[C10] yields: ok ==> yields(box[*ruleRefExpr](ref), val)
+//@   ensures[C10] fail_nil: !ok ==> val == nil
 //@   ensures[C11] budget: p.Stats == old(p.Stats) && p.maxExprCnt == old(p.maxExprCnt) && p.Stats.ExprCnt >= old(p.Stats.ExprCnt) && p.Stats.ExprCnt <= p.maxExprCnt && p.errs == old(p.errs)
 //@   may_panic
 
 //@ func parser.parseSeqExpr(p, seq) (val, ok)
 //@   requires p != nil && p.Stats != nil && p.Stats.ExprCnt <= p.maxExprCnt && p.errs != nil
+//@   ensures[C10] yields: ok ==> yields(box[*seqExpr](seq), val)
+//@   ensures[C10] fail_nil: !ok ==> val == nil
+//@   ensures[C10] shape: ok ==> is[[]any](val) && len(unbox[[]any](val)) == len(seq.exprs)
 //@   ensures[C11] budget: p.Stats == old(p.Stats) && p.maxExprCnt == old(p.maxExprCnt) && p.Stats.ExprCnt >= old(p.Stats.ExprCnt) && p.Stats.ExprCnt <= p.maxExprCnt && p.errs == old(p.errs)
 //@   may_panic
 //@   loop 1:
+//@     invariant[C10] -1 <= rangeindex && rangeindex < len(rangeslice) && rangeslice == seq.exprs && len(vals) == rangeindex + 1
+//@     invariant[C10] forall j Int :: 0 <= j && j < len(vals) ==> yields(seq.exprs[j], vals[j])
 //@     invariant p.Stats == old(p.Stats) && p.maxExprCnt == old(p.maxExprCnt) && p.Stats.ExprCnt >= old(p.Stats.ExprCnt) && p.Stats.ExprCnt <= p.maxExprCnt && p.errs == old(p.errs) && p.Stats != nil
 
 //@ func parser.parseThrowExpr(p, expr) (val, ok)
 //@   requires p != nil && p.Stats != nil && p.Stats.ExprCnt <= p.maxExprCnt && p.errs != nil
+//@   ensures[C10] fail_nil: !ok ==> val == nil
 //@   ensures[C11] budget: p.Stats == old(p.Stats) && p.maxExprCnt == old(p.maxExprCnt) && p.Stats.ExprCnt >= old(p.Stats.ExprCnt) && p.Stats.ExprCnt <= p.maxExprCnt && p.errs == old(p.errs)
 //@   may_panic
 //@   loop 1:
@@ -142,13 +174,18 @@ package grammar
 
 //@ func parser.parseZeroOrMoreExpr(p, expr) (val, ok)
 //@   requires p != nil && p.Stats != nil && p.Stats.ExprCnt <= p.maxExprCnt && p.errs != nil
+//@   ensures[C10] yields: ok ==> yields(box[*zeroOrMoreExpr](expr), val)
+//@   ensures[C10] shape: ok && is[[]any](val)
 //@   ensures[C11] budget: p.Stats == old(p.Stats) && p.maxExprCnt == old(p.maxExprCnt) && p.Stats.ExprCnt >= old(p.Stats.ExprCnt) && p.Stats.ExprCnt <= p.maxExprCnt && p.errs == old(p.errs)
 //@   may_panic
 //@   loop 1:
+//@     invariant[C10] forall j Int :: 0 <= j && j < len(vals) ==> yields(expr.expr, vals[j])
 //@     invariant p.Stats == old(p.Stats) && p.maxExprCnt == old(p.maxExprCnt) && p.Stats.ExprCnt >= old(p.Stats.ExprCnt) && p.Stats.ExprCnt <= p.maxExprCnt && p.errs == old(p.errs) && p.Stats != nil
 
 //@ func parser.parseZeroOrOneExpr(p, expr) (val, ok)
 //@   requires p != nil && p.Stats != nil && p.Stats.ExprCnt <= p.maxExprCnt && p.errs != nil
+//@   ensures[C10] yields: ok ==> yields(box[*zeroOrOneExpr](expr), val)
+//@   ensures[C10] shape: ok
 //@   ensures[C11] budget: p.Stats == old(p.Stats) && p.maxExprCnt == old(p.maxExprCnt) && p.Stats.ExprCnt >= old(p.Stats.ExprCnt) && p.Stats.ExprCnt <= p.maxExprCnt && p.errs == old(p.errs)
 //@   may_panic
 
